@@ -68,6 +68,10 @@ def _dep_result(dep, loader):
     mod = importlib.import_module('rules.' + dep)
     sub = Run(dep, 'quick', mod.LEVEL, '')
     mod.run(sub, 'quick', loader)
+    # the dependency's verdict is what its own check would say: failures withdrawn by equivalence with the reference are
+    # withdrawn here too
+    import equiv
+    equiv.second_chance(sub, loader)
     res = {'instances': [list(i) for i in sub.instances], 'findings': sub.findings, 'configs': sub.configs}
     try:
         os.makedirs(cdir, exist_ok=True)
